@@ -1727,6 +1727,26 @@ func genC17Whole(g *Rng, thorough bool, emit func(Op)) {
 			}
 		}
 
+		// base values that agree in their low machine word: a proof for the base list [1, ...] against
+		// [1 + k*2^64, ...] (the public bases are bound as the integers they are)
+		if pi == 0 {
+			bl := append([]*big.Int{bi(1)}, bases[:1]...)
+			s1 := keyproof.NewValidKeyProofStructure(key.n, bl)
+			p1 := s1.BuildProof(key.pp, key.qp)
+			raw1, err := json.Marshal(p1)
+			if err != nil {
+				panic(err)
+			}
+			id1 := id + "one"
+			emit(Op{"op": "decl-keyproof", "class": "decl", "id": id1, "n": hx(key.n), "bases": hxs(bl), "proof": json.RawMessage(raw1)})
+			emit(Op{"op": "kp-verify", "class": "honest-base-one", "label": "accept", "spec": "accept", "id": id1})
+			for _, k := range []int64{1, 2, 3} {
+				alt := append([]*big.Int{new(big.Int).Add(bi(1), new(big.Int).Lsh(bi(k), 64))}, bl[1:]...)
+				emit(Op{"op": "kp-verify", "class": "other-base-same-low-word", "label": "reject", "spec": "reject", "fkey": "C17/base-same-low-word", "id": id1, "bases": hxs(alt)})
+			}
+			emit(Op{"op": "kp-verify", "class": "other-base-same-low-word", "label": "reject", "spec": "reject", "fkey": "C17/base-same-low-word", "id": id1,
+				"bases": hxs(append([]*big.Int{new(big.Int).Add(bi(1), new(big.Int).Lsh(bi(1), 128))}, bl[1:]...))})
+		}
 		// leaves and containers by kind
 		leaves := map[string][]leafRef{}
 		containers := map[string][][]string{}
